@@ -406,6 +406,8 @@ def _laws17(args):
         def S(q):
             return {id(e) for e in sv.select(q, doc)}
         allel = {id(e) for e in doc.find_all(True)}
+        import bs4
+        rooted = len([c for c in doc.contents if isinstance(c, bs4.Tag)]) == 1
         carriers = S('button, input:not([type=hidden]), select, textarea, optgroup, option, fieldset') & allel
         laws = [
             (':enabled & :disabled empty', not (S(':enabled') & S(':disabled'))),
@@ -418,7 +420,11 @@ def _laws17(args):
             (':in-range & :out-of-range empty', not (S(':in-range') & S(':out-of-range'))),
             (':link == :any-link', S(':link') == S(':any-link')),
             (':checked subset of :default', S(':checked') <= S(':default')),
-            (':dir(ltr) xor :dir(rtl) on HTML elements', not (S(':dir(ltr)') & S(':dir(rtl)'))),
+            # "each HTML element of a rooted document is exactly one of": the universe is the HTML-namespace elements whose ancestors are
+            # HTML-namespace elements too (foreign content - SVG/MathML in an html5lib tree - is outside the property's documents)
+            (':dir(ltr) xor :dir(rtl) on HTML elements', not (S(':dir(ltr)') & S(':dir(rtl)')) and
+             (S(':dir(ltr)') | S(':dir(rtl)')) >= {id(e) for e in doc.find_all(True) if rooted and all(
+                 x.namespace in (None, 'http://www.w3.org/1999/xhtml') for x in [e] + [a for a in e.parents if isinstance(a, bs4.Tag) and a.name != '[document]'])}),
         ]
         for nm, ok in laws:
             n += 1
